@@ -252,9 +252,60 @@ class C13(Property):
                 yield c
         for c in self.hygiene_cases():
             yield c
+        for c in self.history_cases(rng, 2 if self.thorough else 1):
+            yield c
         n_rand = 20000 if self.thorough else 1500
         for j in range(n_rand):
             yield self.random_case(rng, big=(j % 4 == 0))
+            if j % 3 == 0:
+                yield self.random_history(rng, big=(j % 12 == 0))
+
+    def history_cases(self, rng, maxkwo):
+        """FunctionBuilder histories: every op sequence of length <= 2 over a small alphabet, small signatures"""
+        kwo_cfgs = [((), ()), ((4,), ()), ((4,), ((4, 24),)), ((4, 5), ((5, 25),))][:2 + maxkwo]
+        i = rng.randrange(64)
+        for sig in self.base_sigs(2, kwo_cfgs):
+            alpha = [['r', n] for n in sig['args'] + sig['kwonly']] + [['r', 6]]
+            alpha += [['a', 6, None], ['a', 6, 41], ['k', 8, None], ['k', 8, 42], ['a', 8, 43]]
+            if sig['args']:
+                alpha.append(['a', sig['args'][0], None])
+            seqs = [[]] + [[a] for a in alpha] + [[a, b] for a in alpha for b in alpha]
+            names = sig['args'] + sig['kwonly'] + [6, 8]
+            for ops in seqs:
+                i += 1
+                c = self.decorate(sig, i)
+                c['ops'] = ops
+                c['calls'] = self.random_calls(rng, names, len(sig['args']) + 2, len(sig['args']) - len(sig['defaults']), 6)
+                yield c
+
+    def random_calls(self, rng, names, total_pos, nreq, n):
+        calls = []
+        for _ in range(n):
+            k = max(0, rng.choice([rng.randint(0, total_pos + 1), rng.randint(0, total_pos + 1), nreq, total_pos - 1]))
+            ks = [m for m in dict.fromkeys(names) if rng.random() < (0.5 if rng.random() < 0.7 else 0.15)]
+            rng.shuffle(ks)
+            calls.append([[100 + j for j in range(k)], [[m, 150 + m] for m in ks]])
+        return calls
+
+    def random_history(self, rng, big=False):
+        c = self.random_case(rng, big)
+        present = c['args'] + c['kwonly']
+        fresh = [n for n in range(1, 34) if n not in present and n not in (c['varargs'], c['varkw'])][:5]
+        for key in ('injected', 'expected', 'opts', 'form', 'fname'):
+            c.pop(key, None)
+        ops = []
+        for _ in range(rng.randint(0, 6)):
+            q = rng.random()
+            pool = present + fresh
+            if q < 0.45 and pool:
+                ops.append(['r', rng.choice(present) if present and rng.random() < 0.85 else rng.choice(pool)])
+            else:
+                z = rng.choice(fresh) if rng.random() < 0.85 else rng.choice(pool + [n for n in (c['varargs'], c['varkw']) if n is not None])
+                ops.append([rng.choice(['a', 'a', 'k']), z, rng.choice([None, 80 + z])])
+        c['ops'] = ops
+        c['calls'] = self.random_calls(rng, present + fresh[:3], len(c['args']) + 3, len(c['args']) - len(c['defaults']),
+                                       rng.randint(5, 20))
+        return c
 
     def hygiene_cases(self):
         """parameters / functions spelled like the names the builder puts into the exec namespace"""
@@ -290,6 +341,7 @@ class C13(Property):
                 yield c
         while True:
             yield self.random_case(rng, big=rng.random() < 0.5)
+            yield self.random_history(rng, big=rng.random() < 0.5)
 
     def random_case(self, rng, big=False):
         npos = rng.randint(0, 6 if big else 3)
@@ -524,8 +576,13 @@ class C13(Property):
 
     def render(self, case, obs):
         num = self._num
-        if 'exc' in obs:
+        hist = 'ops' in case
+        if 'exc' in obs and not (hist and obs.get('stage') == 'get_func'):
             return 'err %s' % obs['exc']
+        if hist:
+            hdr = self.fb_header(obs['fb'])
+            if 'exc' in obs:
+                return '%s ; err %s' % (hdr, obs['exc'])
         ws = obs['wsig']
         if 'exc' in ws:
             return 'sigerr %s' % ws['exc']
@@ -562,7 +619,7 @@ class C13(Property):
         anns += ' r:%s' % ('-' if ws['ret'] is None else ws['ret'])
         d_txt, i_txt = [''.join(t.split()) for t in self.source_parts(obs['source'])]   # modulo white space
         outs = []
-        plain = not case['injected'] and not case['expected']
+        plain = not hist and not case['injected'] and not case['expected']
         for o in obs['calls']:
             if o['recv'] is None:
                 outs.append('E' if o['via'] == 'TypeError' else '!%s' % (o['via'],))
@@ -582,7 +639,23 @@ class C13(Property):
             elif o['via'] is not None:
                 txt += '=!%s' % (o['via'],)
             outs.append(txt)
+        if hist:
+            return '%s ; S %s ; M %s ; A %s ; %s' % (hdr, sig, meta, anns, ','.join(outs))
         return 'S %s ; M %s ; A %s ; D %s ; I %s ; %s' % (sig, meta, anns, d_txt, i_txt, ','.join(outs))
+
+    def fb_header(self, fb):
+        num = self._num
+
+        def ident(mm):
+            n = name_id(mm.group(0))
+            return mm.group(0) if n is None else 'p%d' % n
+
+        def txt(t):
+            return re.sub(r'[A-Za-z_]\w*', ident, ''.join(t.split())) if isinstance(t, str) else '?%r' % (t,)
+        return 'N %s ; Q %s ; DD %s ; D %s ; I %s' % (
+            ','.join(num(n) for n in fb['names']) or '-', ','.join(num(n) for n in fb['required']) or '-',
+            ','.join('%s:%s' % (num(n), '-' if d is None else d) for n, d in fb['dd']), txt(fb['sig_str']),
+            '(' + txt(fb['inv_str']) + ')')
 
     def bound_text(self, case, loc):
         """locals of the wrapped function -> `pos|star|kwo|dstar` in signature order"""
@@ -620,32 +693,38 @@ class C13(Property):
         self._nt = False
         if obs.get('stage') == 'case':
             return Failure('harness', 'case could not be run: %s %s' % (obs['exc'], obs.get('msg')))
-        inj, exp = case['injected'], case['expected']
-        plain = not inj and not exp
+        hist = 'ops' in case
+        inj, exp = ([], []) if hist else (case['injected'], case['expected'])
+        plain = not hist and not inj and not exp
         fparams = obs['fsig'].get('params')
         if fparams is None:
             return Failure('harness', 'inspect.signature failed on the wrapped function itself')
-        # which outcome does the documentation prescribe for this injected/expected list?
-        present = set(case['args']) | set(case['kwonly'])
+        # which outcome does the request call for?  (simulated on names only)
+        if hist:
+            steps = [('r', op[1], None, None) if op[0] == 'r' else ('a', op[1], op[2], op[0] == 'k') for op in case['ops']]
+        else:
+            steps = [('r', x, None, None) for x in inj] + [('a', z, d, None) for z, d in exp]
+        state = {n: 'orig' for n in case['args'] + case['kwonly']}
         others = {case['varargs'], case['varkw']} - {None}
-        must_succeed, may_fail = True, False
-        for x in inj:
-            if x in present:
-                present.discard(x)
-            elif case['varkw'] is not None and case['opts'][0]:
-                pass                      # "keyword arg will be caught by the varkw"
+        must_succeed = True
+        for kind, n, d, kwonly in steps:
+            if kind == 'r':
+                if n in state:
+                    del state[n]
+                elif not hist and case['varkw'] is not None and case['opts'][0]:
+                    pass                      # "keyword arg will be caught by the varkw"
+                else:
+                    must_succeed = False      # MissingArgument is the documented outcome
             else:
-                must_succeed = False      # MissingArgument is the documented outcome
-        for z, _d in exp:
-            if z in present or z in others:
-                must_succeed = False
-                may_fail = True
-            present.add(z)
+                if n in state or n in others:
+                    must_succeed = False      # ExistingArgument / duplicate name in the def
+                state[n] = ('new', d, kwonly)
         if 'exc' in obs:
             st['wraps_exc_' + obs['exc']] = st.get('wraps_exc_' + obs['exc'], 0) + 1
             if must_succeed:
-                return Failure('wraps_raises', 'wraps(injected=%r, expected=%r) raised %s on a valid request'
-                               % (inj, exp, obs['exc']))
+                return Failure('wraps_raises', '%s raised %s on a valid request'
+                               % ('builder history %r' % (case['ops'],) if hist else
+                                  'wraps(injected=%r, expected=%r)' % (inj, exp), obs['exc']))
             return None
         if not must_succeed:
             return None                   # caller error region (missing / existing / clashing name): the statement promises nothing
@@ -658,7 +737,7 @@ class C13(Property):
         if obs['wmeta'] != obs['fmeta']:
             tag = 'doc' if obs['wmeta'][0] == obs['fmeta'][0] and obs['wmeta'][2] == obs['fmeta'][2] else 'meta'
             return Failure(tag, '(__name__, __doc__, __module__) = %r, wrapped function has %r' % (obs['wmeta'], obs['fmeta']))
-        if not case['opts'][1] and obs['wrapped'] != 1:   # (hide_wrapped=True: no demand)
+        if not hist and not case['opts'][1] and obs['wrapped'] != 1:   # (hide_wrapped=True / bare builder: no demand)
             return Failure('wrapped', '__wrapped__ does not point at the wrapped function')
         if obs['wasync'] != obs['fasync']:
             return Failure('async', 'iscoroutinefunction(wrapper)=%s, wrapped function %s' % (obs['wasync'], obs['fasync']))
@@ -669,7 +748,7 @@ class C13(Property):
             if wparams != fparams:
                 return Failure('signature', 'signature %r differs from the wrapped function\'s %r' % (wparams, fparams))
         else:
-            f = self.sig_delta(case, fparams, wparams)
+            f = self.sig_delta(state, fparams, wparams)
             if f is not None:
                 return f
         # --- calls
@@ -697,7 +776,8 @@ class C13(Property):
                     acc += 1
         st['calls_accepted'] = st.get('calls_accepted', 0) + acc
         st['calls_rejected'] = st.get('calls_rejected', 0) + rej
-        st['plain' if plain else 'modified'] = st.get('plain' if plain else 'modified', 0) + 1
+        mode = 'plain' if plain else ('history' if hist else 'modified')
+        st[mode] = st.get(mode, 0) + 1
         self._nt = (acc > 0 and rej > 0) or not plain
         return None
 
@@ -709,26 +789,24 @@ class C13(Property):
         return (sorted(map(tuple, d['named'])) == sorted(map(tuple, v['named'])) and d['star'] == v['star']
                 and dd(d['dstar']) == dd(v['dstar']) and not d.get('odd') and not v.get('odd'))
 
-    def sig_delta(self, case, fparams, wparams):
-        """injected / expected: the own signature changes by exactly those parameters and every remaining
-        parameter keeps its kind, default, annotation and relative order"""
-        inj = [pn(x) for x in case['injected']]
-        exp = [(pn(z), d) for z, d in case['expected']]
-        fnames = [p[0] for p in fparams]
-        removed = [x for x in inj if x in fnames and dict((p[0], p[1]) for p in fparams)[x] in ('pk', 'ko')]
-        added = dict(exp)
-        kept = [p for p in fparams if p[0] not in removed and p[0] not in added]
+    def sig_delta(self, state, fparams, wparams):
+        """removed / added parameters: the own signature changes by exactly those parameters and every
+        remaining parameter keeps its kind, default, annotation and relative order"""
+        kept_names = {pn(n) for n, v in state.items() if v == 'orig'}
+        added = {pn(n): v for n, v in state.items() if v != 'orig'}
+        kept = [p for p in fparams if p[0] in kept_names or p[1] in ('va', 'vk')]
         wkept = [p for p in wparams if p[0] not in added]
         if wkept != kept:
-            return Failure('sig_delta', 'remaining parameters %r, expected %r (injected=%r expected=%r)'
-                           % (wkept, kept, inj, exp))
+            return Failure('sig_delta', 'remaining parameters %r, expected %r (added %r)' % (wkept, kept, sorted(added)))
         wadded = [p for p in wparams if p[0] in added]
         if sorted(p[0] for p in wadded) != sorted(added):
             return Failure('sig_delta', 'added parameters %r, expected exactly %r' % ([p[0] for p in wadded], sorted(added)))
         for p in wadded:
-            if p[2] != added[p[0]]:
-                return Failure('sig_delta', 'added parameter %s has default %r, expected %r' % (p[0], p[2], added[p[0]]))
-            if p[1] not in ('pk', 'ko'):
+            _new, d, kwonly = added[p[0]]
+            if p[2] != d:
+                return Failure('sig_delta', 'added parameter %s has default %r, expected %r' % (p[0], p[2], d))
+            allowed = ('pk', 'ko') if kwonly is None else (('ko',) if kwonly else ('pk',))
+            if p[1] not in allowed:
                 return Failure('sig_delta', 'added parameter %s has kind %s' % (p[0], p[1]))
         return None
 
@@ -741,10 +819,15 @@ class C13(Property):
         if len(calls) > 1:
             for i in range(len(calls)):
                 yield dict(case, calls=[calls[i]])
-        for key in ('injected', 'expected'):
-            for i in range(len(case[key])):
-                yield dict(case, **{key: case[key][:i] + case[key][i + 1:]})
-        used = set(case['injected']) | {z for z, _ in case['expected']}
+        if 'ops' in case:
+            for i in range(len(case['ops'])):
+                yield dict(case, ops=case['ops'][:i] + case['ops'][i + 1:])
+            used = {op[1] for op in case['ops']}
+        else:
+            for key in ('injected', 'expected'):
+                for i in range(len(case[key])):
+                    yield dict(case, **{key: case[key][:i] + case[key][i + 1:]})
+            used = set(case['injected']) | {z for z, _ in case['expected']}
         if case['args'] and case['args'][-1] not in used:
             a = case['args'][-1]
             yield self.without(case, a, args=case['args'][:-1], defaults=case['defaults'][:-1])
@@ -756,7 +839,7 @@ class C13(Property):
                                    kwdefaults=[p for p in case['kwdefaults'] if p[0] != k])
         if case['varargs'] is not None and case['varargs'] not in used:
             yield self.without(case, case['varargs'], varargs=None)
-        if case['varkw'] is not None and case['varkw'] not in used and not case['injected']:
+        if case['varkw'] is not None and case['varkw'] not in used and not case.get('injected'):
             yield self.without(case, case['varkw'], varkw=None)
         if case['defaults']:
             yield dict(case, defaults=case['defaults'][1:])
